@@ -132,7 +132,7 @@ TABLE = {
             ('OpyVerif.Proofs.TaskTrial', 'Opy', r'^(leAll_refl|leAll_trans|leAll_set|trialStep_pop|greedyUpdate_evals_inBox|sweepPop_pop|ginv_execEv|ginv_exec|task_greedy)$'),
             ('OpyVerif.Proofs.TaskTrialCode', 'Opy', r'code_task_greedy|code_greedySites_ok|code_trialSites_ok|code_searchClip_fixes|code_hyperClip_fixes'),
             ('OpyVerif.Proofs.TaskSwarm', 'Opy', r'^(memory_fits|memory_mem|leAll_map|swarm_sweep_fit|swInv_execEv|swInv_exec|task_swarm)$'),
-            ('OpyVerif.Proofs.TaskSwarmCode', 'Opy', r'code_task_swarm'),
+            ('OpyVerif.Proofs.TaskSwarmCode', 'Opy', r'code_task_swarm'), ('OpyVerif.Proofs.TaskHarmony', 'Opy', r'hsMemory_iter'),
             ('OpyVerif.Proofs.TaskRunCode', 'Opy', r'code_psoSweep_isRule|code_genericSweep_isRule'),
             ('OpyVerif.Generated.Skeletons', 'Opy.Gen', r'skel_\w+_good|evalSites_ok')],
 }
